@@ -3,7 +3,7 @@
    implementation computed in the same syntax, and the two texts are compared. *)
 From Coq Require Import ZArith List String Ascii Bool QArith.
 Import ListNotations.
-Open Scope string_scope.
+Local Open Scope string_scope.
 
 Definition nl : string := String (ascii_of_nat 10) EmptyString.
 
